@@ -465,13 +465,21 @@ op_registry(const Plan& p, const Op& op, sim::Result& res)
             }
           std::string key = line.substr(0, pos), val = line.substr(pos);
           std::string k2;
-          for (char c : key)
+          // documented: blank, tab, underscore and '!' are all white space, runs of them count as one, case is ignored
+          static const char* ws[] = { " ", "\t", "_", "  ", " \t", "__", "\t\t", "_ " };
+          const size_t first = key.find_first_not_of(" \t"), last = key.find_last_not_of(" \t");
+          for (size_t ci = 0; ci < key.size(); ++ci)
             {
-              k2 += rr.chance(0.5) ? (char)toupper((unsigned char)c) : (char)tolower((unsigned char)c);
-              if (c == ' ' && rr.chance(0.5))
-                k2 += "  ";
+              const char c = key[ci];
+              const bool inner = first != std::string::npos && ci > first && ci < last;
+              if ((c == ' ' || c == '_') && inner && key[ci - 1] != '[' && rr.chance(0.6))
+                k2 += ws[rr.below(8)];
+              else
+                k2 += rr.chance(0.5) ? (char)toupper((unsigned char)c) : (char)tolower((unsigned char)c);
             }
-          mod << (rr.chance(0.3) ? "  " : "") << k2 << (rr.chance(0.5) ? "   " : "") << val << "\n";
+          if (k2.find('\t') != std::string::npos)
+            sim::probe("keyword_with_tab_between_words");
+          mod << (rr.chance(0.3) ? "  " : (rr.chance(0.2) ? "\t" : "")) << k2 << (rr.chance(0.5) ? "   " : "") << val << "\n";
         }
       std::istringstream in2(mod.str());
       const std::string t3 = r.parse_and_print(name, in2);
@@ -664,13 +672,16 @@ op_keyparser(const Plan& p, const Op& op, sim::Result& res)
   kp.add_stop_key("End My Test_Parameters");
   auto vary = [&](const std::string& key) {
     std::string k2;
-    for (char c : key)
+    static const char* ws[] = { " ", "\t", "_", "  ", " \t", "__", "!", "\t_" };
+    for (size_t ci = 0; ci < key.size(); ++ci)
       {
-        k2 += r.chance(0.5) ? (char)toupper((unsigned char)c) : (char)tolower((unsigned char)c);
-        if (c == ' ' && r.chance(0.4))
-          k2 += " ";
+        const char c = key[ci];
+        if ((c == ' ' || c == '_') && ci > 0 && ci + 1 < key.size() && r.chance(0.6))
+          k2 += ws[r.below(8)];
+        else
+          k2 += r.chance(0.5) ? (char)toupper((unsigned char)c) : (char)tolower((unsigned char)c);
       }
-    return (r.chance(0.3) ? std::string(" ") : std::string()) + k2 + (r.chance(0.5) ? " " : "");
+    return (r.chance(0.3) ? std::string(r.chance(0.5) ? " " : "\t!") : std::string()) + k2 + (r.chance(0.5) ? " " : "");
   };
   const int want_scalar = (int)r.below(1000), want_mash = 2 + (int)r.below(20);
   const int idx1 = 1 + (int)r.below(4), idx2 = 1 + (int)r.below(4);
@@ -890,6 +901,30 @@ siemens_sinogram_header(const std::string& data_file, int tang, int views, int m
   return h.str();
 }
 
+// the 4-dimensional (TOF) flavour: Biograph mCT, span 11, segment 0 only, 13 TOF bins
+std::string
+siemens_tof_sinogram_header(const std::string& data_file, int tang, int views)
+{
+  std::ostringstream h;
+  h << "!INTERFILE:=\n%comment:=SMS-MI sinogram subheader\n!originating system:=1104\n%SMS-MI header name space:=sinogram subheader\n"
+       "%SMS-MI version number:=3.4\n!GENERAL DATA:=\n!name of data file:="
+    << data_file
+    << "\n%compression:=off\n!GENERAL IMAGE DATA:=\nimage data byte order:=LITTLEENDIAN\n%patient orientation:=HFS\n"
+       "!PET data type:=emission\nnumber format:=signed integer\n!number of bytes per pixel:=2\nnumber of dimensions:=4\n"
+       "matrix axis label[1]:=sinogram projections\nmatrix axis label[2]:=sinogram views\nmatrix axis label[3]:=number of sinograms\n"
+       "matrix axis label[4]:=TOF bin\nmatrix size[1]:="
+    << tang << "\nmatrix size[2]:=" << views
+    << "\nmatrix size[3]:=109\nmatrix size[4]:=13\nscale factor (mm/pixel)[1]:=2.005\n%axial compression:=11\n"
+       "%maximum ring difference:=5\nnumber of rings:=55\n%number of segments:=1\n%segment table:={109}\n"
+       "%total number of sinograms:=109\napplied corrections:=\n%number of TOF time bins:=13\n%TOF mashing factor:=1\n"
+       "number of scan data types:=2\nscan data type description[1]:=prompts\nscan data type description[2]:=randoms\n"
+       "data offset in bytes[1]:=0\ndata offset in bytes[2]:="
+    << (long)tang * views * 109 * 13 * 2
+    << "\n!IMAGE DATA DESCRIPTION:=\n!total number of data sets:=1\n!image duration (sec):=600\n!image relative start time (sec):=0\n"
+       "END OF INTERFILE:=\n";
+  return h.str();
+}
+
 std::string
 spect_header(const std::string& data_file, int bins, int planes, int projections)
 {
@@ -1022,7 +1057,7 @@ op_interfile(const Plan& p, const Op& op, sim::Result& res)
   const std::string dir = sim::scratch_dir();
   const bool projdata = op.kind.find("pd") != std::string::npos;
   const bool listmode = op.kind.find("_lm_") != std::string::npos, multi = op.kind.find("multi") != std::string::npos;
-  const int flavour = projdata ? (int)(p.c("pd_flavour", 0) % 3) : 0;
+  const int flavour = projdata ? (int)(p.c("pd_flavour", 0) % 4) : 0;
   std::string header_path, data_path;
   if (listmode)
     {
@@ -1062,6 +1097,15 @@ op_interfile(const Plan& p, const Op& op, sim::Result& res)
       const size_t sinos = delta ? 190 : 64;
       spit_text(data_path, std::string((size_t)tang * views * sinos * 2 * 2, '\1'));
       sim::probe("siemens_sinogram_header_checked");
+    }
+  else if (projdata && flavour == 3)
+    {
+      header_path = dir + "/pdtof.s.hdr";
+      data_path = dir + "/pdtof.s";
+      const int tang = 5 + 2 * (int)(p.c("ndet4", 0) % 3), views = p.c("span3", 0) ? 42 : 24;
+      spit_text(header_path, siemens_tof_sinogram_header("pdtof.s", tang, views));
+      spit_text(data_path, std::string((size_t)tang * views * 109 * 13 * 2 * 2, '\1'));
+      sim::probe("siemens_tof_sinogram_header_checked");
     }
   else if (projdata && flavour == 2)
     {
@@ -1242,7 +1286,7 @@ gen(uint64_t seed, const std::string& tier, long idx)
   p.cfg["span3"] = r.chance(0.4);
   p.cfg["nz"] = r.range(0, 3);
   p.cfg["max_positions"] = tier == "thorough" ? 1000000 : 300;
-  p.cfg["pd_flavour"] = r.chance(0.5) ? 0 : r.range(1, 2);
+  p.cfg["pd_flavour"] = r.chance(0.4) ? 0 : r.range(1, 3);
   static const char* kinds[] = { "registry_round_trip", "registry_eof", "registry_badbit", "registry_flip", "registry_lines", "keyparser",
                                  "interfile_pd_eof", "interfile_pd_flip", "interfile_pd_lines", "interfile_pd_datasize", "interfile_img_eof",
                                  "interfile_img_flip", "interfile_img_lines", "interfile_img_datasize", "keyparser", "registry_round_trip",
